@@ -6,7 +6,7 @@ import ast
 from typing import Iterable, Iterator
 
 from .cfg import CFG, Node, build_cfg, call_name, calls_in, node_calls
-from .model import FuncInfo, dotted_name, walk_no_nested
+from .model import FuncInfo, anon_text, dotted_name, walk_no_nested
 
 MUTATORS = {
     "append", "extend", "insert", "pop", "remove", "clear", "update", "setdefault", "add", "discard",
@@ -187,3 +187,23 @@ def self_attr_writes(fi: FuncInfo, _seen: set[str] | None = None) -> set[str]:
             if m is not None:
                 out |= self_attr_writes(m, seen)
     return out
+
+
+def asrc(fi: FuncInfo) -> str:
+    """Anonymised source of a function: locals and parameters replaced by ``_``, no spaces, statements joined by ';'."""
+    cached = getattr(fi.node, "_xsa_asrc", None)
+    if cached is None:
+        import copy
+
+        node = copy.deepcopy(fi.node)
+        # drop the docstring
+        if node.body and isinstance(node.body[0], ast.Expr) and isinstance(node.body[0].value, ast.Constant) and isinstance(node.body[0].value.value, str):
+            node.body = node.body[1:] or [ast.Pass()]
+        cached = anon_text(node, fi.node)
+        fi.node._xsa_asrc = cached  # type: ignore[attr-defined]
+    return cached
+
+
+def A(pattern: str) -> str:
+    """Normalise a pattern the same way as asrc (spaces removed)."""
+    return pattern.replace(" ", "")
